@@ -14,7 +14,7 @@
    Neumann-normal terms (normals=...) are outside the property and the model. *)
 From Coq Require Import List ZArith Bool Arith Reals Lia Lra.
 Import ListNotations.
-From FV.C15 Require Import Model Proofs Span.
+From FV.C15 Require Import Model Proofs Span Positive.
 Local Open Scope R_scope.
 
 (* 1a. Constants are mapped to zero by every returned matrix: every mesh,
@@ -117,6 +117,32 @@ Proof.
   now apply moment_regular_if_spanning.
 Qed.
 
+(* 2e. The same with mesh-level hypotheses only: a positive kernel (None = 1,
+   exp, gauss), positive element volumes, every node belongs to an element,
+   and the neighbourhood of vertex i contains three offsets that span space.
+   Then the moment-corrected operator is exact at i for every affine field. *)
+Theorem C15_exact_on_spanning_neighbourhoods :
+  forall (o : opts) (kern : V3 R -> R) (m : mesh R) (evol : list R) As rows inc,
+    o_moment o = true ->
+    spatial_gradient_adjacency_matrices ROps o kern m evol = Some As ->
+    mesh_rows ROps o kern m evol = Some rows ->
+    incidence m = Some inc ->
+    (forall v, 0 < kern v) ->
+    length evol = length inc -> Forall (fun v => 0 < v) evol ->
+    (forall j, (j < length (m_nodes m))%nat -> Exists (fun e => mem_nat j e = true) inc) ->
+    let P := vertex_positions ROps (o_mode o) m inc in
+    forall i ns, nth_error rows i = Some ns ->
+    (exists e1 e2 e3, In e1 ns /\ In e2 ns /\ In e3 ns /\
+                      det33 ROps (nb_off e1, nb_off e2, nb_off e3) <> 0) ->
+    forall (g : V3 R) (c : R) (a : nat), (a < 3)%nat ->
+      spmv ROps (nth a As []) (affine g c P) i = comp a g.
+Proof.
+  intros o kern m evol As rows inc Hmm HA Hrows Hinc Hk Hl Hv Hcov P i ns Hns Hspan.
+  apply (C15_moment_exact_spanning o kern m evol As rows inc Hmm HA Hrows Hinc i ns Hns);
+    [|exact Hspan].
+  exact (mesh_weights_pos o kern m evol rows inc Hrows Hinc Hk Hl Hv Hcov i ns Hns).
+Qed.
+
 (* 3. The convenience functions calculate_{nodal,elemental}_spatial_gradients
    (np.stack([A.dot(data) for A in grad_adjs], axis=1)) return, at
    [vertex i][axis a][feature k], the a-th explicit matrix applied by hand to
@@ -194,7 +220,29 @@ Proof.
   field.
 Qed.
 
+
+Example C15_spanning_hypotheses_satisfiable :
+  exists rows inc ns,
+    mesh_rows ROps ex_opts (fun _ => 1) ex_mesh [1] = Some rows /\
+    incidence ex_mesh = Some inc /\
+    nth_error rows 1 = Some ns /\
+    length [1] = length inc /\ Forall (fun v => 0 < v) [1] /\
+    (forall j, (j < length (m_nodes ex_mesh))%nat -> Exists (fun e => mem_nat j e = true) inc) /\
+    (exists e1 e2 e3, In e1 ns /\ In e2 ns /\ In e3 ns /\
+                      det33 ROps (nb_off e1, nb_off e2, nb_off e3) <> 0).
+Proof.
+  eexists _, _, _.
+  repeat (split; [cbv - [Rplus Rmult Rminus Ropp Rinv IZR]; reflexivity|]).
+  split; [repeat constructor; lra|].
+  split.
+  - intros j Hj. apply Exists_cons_hd.
+    destruct j as [|[|[|[|j]]]]; try reflexivity. simpl in Hj. lia.
+  - eexists _, _, _. split; [left; reflexivity|].
+    split; [right; left; reflexivity|]. split; [right; right; left; reflexivity|].
+    cbv - [Rplus Rmult Rminus Ropp Rinv IZR]. lra.
+Qed.
+
 Print Assumptions C15_grad_const_zero.
-Print Assumptions C15_moment_exact_spanning.
+Print Assumptions C15_exact_on_spanning_neighbourhoods.
 Print Assumptions C15_moment_exact.
 Print Assumptions C15_convenience_affine_exact.
